@@ -37,7 +37,7 @@ d2 = mk({"o/__init__.py":"", "o/a.py":"import os\nimport collections.abc\n"})
 os.chdir(d2)
 ev = get_evaluable_architecture("o", "o", exclude_external_libraries=False)
 print("C10 relative root 'o':", sorted(ev.modules), edges(ev))
-os.chdir("/tmp/probe")
+os.chdir(tempfile.gettempdir())
 shutil.rmtree(d); shutil.rmtree(d2)
 
 # C14: prefix siblings
